@@ -585,4 +585,146 @@ theorem iterErr_spine (m : IterErr) (hm : m ≠ .none) (hm2 : m ≠ .iterChild) 
     exact ⟨fun h => .ext p c h, fun h => by cases h with | ext _ _ h => exact h⟩
 
 
+
+/-! ### donors that hold more than the trie; the API function GetAllMissingNodes -/
+
+/-- `mergeDB` with a donor that may hold ANYTHING under keys the reference store does not use, and agrees with it on the
+    keys it does use -/
+theorem mergeDB_get_superset (v : Nat) (ref : Bytes → Option Bytes) (donor : List (Bytes × Repr)) (s : Store)
+    (hsub : ∀ k b b', ref k = some b → s.get k = some b' → b' = b)
+    (hdonor : ∀ e ∈ donor, ∀ b, ref e.1 = some b → encode e.2 = b) :
+    ∀ k b, ref k = some b → (s.get k = some b ∨ ∃ r, (k, r) ∈ donor) → (mergeDB v s donor).get k = some b := by
+  induction donor generalizing s with
+  | nil =>
+    intro k b hr h
+    rcases h with h | ⟨r, hm⟩
+    · simpa [mergeDB] using h
+    · cases hm
+  | cons e donor ih =>
+    have hsub' : ∀ k b b', ref k = some b → (s.put e.1 (encode e.2)).get k = some b' → b' = b := by
+      intro k b b' hr h
+      rw [Store.get_put] at h
+      by_cases hk : e.1 = k
+      · simp only [hk, if_true, Option.some.injEq] at h
+        rw [← h]; exact hdonor e (by simp) b (hk ▸ hr)
+      · simp only [hk, if_false] at h; exact hsub k b b' hr h
+    have hd' : ∀ e' ∈ donor, ∀ b, ref e'.1 = some b → encode e'.2 = b :=
+      fun e' h => hdonor e' (List.mem_cons_of_mem _ h)
+    intro k b hr h
+    rw [mergeDB_cons]
+    apply ih _ hsub' hd' k b hr
+    rcases h with h | ⟨r, hm⟩
+    · left
+      rw [Store.get_put]
+      by_cases hk : e.1 = k
+      · simp only [hk, if_true]
+        rw [hdonor e (by simp) b (hk ▸ hr)]
+      · simp only [hk, if_false]; exact h
+    · rcases List.mem_cons.mp hm with rfl | hm
+      · left
+        rw [Store.get_put]
+        simp only [if_true]
+        rw [hdonor (k, r) (by simp) b hr]
+      · right; exact ⟨r, hm⟩
+
+theorem getAllMissing_of_unfolds (get : Bytes → Option Bytes) (root : Bytes) (pt : PTree) (h : Unfolds get root pt) :
+    (get root = none → getAllMissing pt = none) ∧
+    (get root ≠ none → getAllMissing pt = some (allMissing pt)) := by
+  cases h with
+  | missing k hn => exact ⟨fun _ => rfl, fun hne => absurd hn hne⟩
+  | leaf k bs v o pre p val hg hd => exact ⟨fun hn => absurd (hg.symm.trans hn) (by simp), fun _ => rfl⟩
+  | full k bs v o ch val pch hg hd h1 h2 => exact ⟨fun hn => absurd (hg.symm.trans hn) (by simp), fun _ => rfl⟩
+  | ext k bs v o p ck c hg hd hc => exact ⟨fun hn => absurd (hg.symm.trans hn) (by simp), fun _ => rfl⟩
+
+
+
+/-! ### re-computing the root from the decoded store -/
+
+/-- re-derive the key of the node stored under `k` bottom-up from the DECODED store contents: every child key is
+    replaced by the key recomputed for that child, then the node is hashed (what a reader that trusts nothing but the
+    bytes does; `none` = a node is absent / undecodable / fuel exhausted) -/
+def recomputeKey (H : Bytes → Bytes) (get : Bytes → Option Bytes) : Nat → Bytes → Option Bytes
+  | 0, _ => none
+  | n + 1, k =>
+    match get k with
+    | none => none
+    | some bs =>
+      match decode bs with
+      | .ok ⟨v, o, .leaf p q val⟩ => some (H (hashBytes ⟨v, o, .leaf p q val⟩))
+      | .ok ⟨v, o, .full ch val⟩ =>
+        (ch.mapM (fun c => match c with
+          | none => some none
+          | some ck => (recomputeKey H get n ck).map some)).map (fun ch' => H (hashBytes ⟨v, o, .full ch' val⟩))
+      | .ok ⟨v, o, .ext p ck⟩ => (recomputeKey H get n ck).map (fun k' => H (hashBytes ⟨v, o, .ext p k'⟩))
+      | _ => none
+
+theorem mapM_some_self {α : Type} (l : List α) (f : α → Option α) (h : ∀ a ∈ l, f a = some a) : l.mapM f = some l := by
+  induction l with
+  | nil => rfl
+  | cons a l ih =>
+    simp [List.mapM_cons, h a (by simp), ih (fun b hb => h b (List.mem_cons_of_mem _ hb))]
+
+theorem depth_toP_child_full (o : Nat) (ch : Nib → Node) (val : Option Bytes) (i : Nib) :
+    depth (toP (ch i)) < depth (toP (.full o ch val)) := by
+  simp only [toP, depth]
+  have := le_sum_of_mem ((List.finRange 16).map (fun j => depth (toP (ch j)))) (depth (toP (ch i)))
+    (List.mem_map.mpr ⟨i, List.mem_finRange i, rfl⟩)
+  omega
+
+/-- a store that holds every node of the canonical trie `t` re-computes, from the decoded bytes alone, to the key it
+    was saved under -/
+theorem recomputeKey_of_resolves (H : Bytes → Bytes) (hH : ∀ b, (H b).length = 32) (get : Bytes → Option Bytes)
+    (t : Node) (pre : List Nib) (hw : WFn t) (h : Resolves H get t pre) :
+    ∀ n, depth (toP t) < n → recomputeKey H get n (key H t pre) = some (key H t pre) := by
+  induction t generalizing pre with
+  | empty => simp [WFn] at hw
+  | leaf o lp lv =>
+    intro n hn
+    cases n with
+    | zero => simp at hn
+    | succ n =>
+      have hg := h (key H (.leaf o lp lv) pre, reprOf H (.leaf o lp lv) pre) (by simp [nodesOf])
+      have hd := decode_encode _ (reprOf_wf H hH (.leaf o lp lv) pre)
+      have hk := key_eq_hash_reprOf H (.leaf o lp lv) pre rfl
+      simp only [reprOf] at hd hg hk
+      simp only [recomputeKey, hg, hd]
+      rw [hk]
+  | full o ch val ih =>
+    intro n hn
+    cases n with
+    | zero => simp at hn
+    | succ n =>
+      have hg := h (key H (.full o ch val) pre, reprOf H (.full o ch val) pre) (by simp [nodesOf])
+      have hd := decode_encode _ (reprOf_wf H hH (.full o ch val) pre)
+      have hk := key_eq_hash_reprOf H (.full o ch val) pre rfl
+      simp only [reprOf] at hd hg hk
+      simp only [recomputeKey, hg, hd]
+      rw [mapM_some_self]
+      · simp only [Option.map_some]; rw [hk]
+      · intro c hc
+        obtain ⟨i, _, rfl⟩ := List.mem_map.mp hc
+        by_cases he : (ch i).isEmpty = true
+        · simp [he]
+        · simp only [he, Bool.false_eq_true, if_false]
+          have hwi : WFn (ch i) := by
+            rcases hw.1 i with h1 | h1
+            · exact absurd h1 he
+            · exact h1
+          have hdi := depth_toP_child_full o ch val i
+          rw [ih i (pre ++ [i]) hwi (resolves_child_full H get o ch val pre h i) n (by omega)]
+          rfl
+  | ext o ep c ih =>
+    intro n hn
+    cases n with
+    | zero => simp at hn
+    | succ n =>
+      have hg := h (key H (.ext o ep c) pre, reprOf H (.ext o ep c) pre) (by simp [nodesOf])
+      have hd := decode_encode _ (reprOf_wf H hH (.ext o ep c) pre)
+      have hk := key_eq_hash_reprOf H (.ext o ep c) pre rfl
+      simp only [reprOf] at hd hg hk
+      simp only [recomputeKey, hg, hd]
+      rw [ih (pre ++ ep) hw.2.2 (resolves_child_ext H get o ep c pre h) n (by simp only [toP, depth] at hn; omega)]
+      simp only [Option.map_some]; rw [hk]
+
+
 end Verif.Partial
